@@ -168,7 +168,15 @@ func CheckSingleWriter(res *ChurnResult) (findings []Finding, uncertainKeys int,
 		}
 	}
 	// final reads from every live node
-	for _, o := range per[1000] {
+	// of the attempts of one final read (entry node, key, kind) only the last one counts
+	lastFinal := map[string]int{}
+	for i, o := range per[1000] {
+		lastFinal[fmt.Sprintf("%d/%s/%d", o.Entry, o.Key, o.Kind)] = i
+	}
+	for i, o := range per[1000] {
+		if lastFinal[fmt.Sprintf("%d/%s/%d", o.Entry, o.Key, o.Kind)] != i {
+			continue
+		}
 		if o.Err != "" && o.Timeout {
 			continue // transport failure / timeout on the real RPC path: says nothing about the data
 		}
